@@ -206,7 +206,7 @@ pub fn load_known() -> KnownFindings {
     let p = verif_dir().join("known_findings.json");
     match std::fs::read_to_string(&p) {
         Ok(s) => serde_json::from_str(&s).unwrap_or_else(|e| {
-            eprintln!("harness error: {} does not parse: {}", p.display(), e);
+            println!("harness error: {} does not parse: {}", p.display(), e);
             std::process::exit(2);
         }),
         Err(_) => KnownFindings::default(),
